@@ -204,7 +204,7 @@ func calledOnlyFrom(w *World, fn *ssa.Function, allowed map[string]bool) bool {
 func checkC02(w *World, r *Recorder) propInfo {
 	emptyBytesWorld = w
 	info := propInfo{
-		Explanation: "Decided part (all in-repo): on every path of Evidence.Verify that can return nil, (V1) ProtectedHeader.Algorithm was called on the *protected* bucket of e.message and returned a nil error, (V2) cose.NewVerifier was called with that algorithm and the caller's key and returned nil error, (V3) (*Sign1Message).Verify was called on e.message itself with that verifier and a zero-length external AAD and returned nil, (V4) e.message is non-nil; every failing call makes Verify fail. (V5) Evidence.message is written only by Sign / ValidateAndSign / UnmarshalCOSE (and private helpers reachable only from them). (V6) in UnmarshalCOSE the claims are decoded from the Payload field of the very message whose tagged UnmarshalCBOR consumed the caller's buffer. Not decided: unforgeability of the signature schemes, go-cose's Sig_structure construction, bit-level behaviour of the CBOR decoders — cryptographic and library facts outside static reach; go-cose's Verify is modelled from its source (error when payload is nil, signature empty, or algorithm absent).",
+		Explanation: "Decided part (all in-repo): on every path of Evidence.Verify that can return nil, (V1) ProtectedHeader.Algorithm was called on the *protected* bucket of e.message and returned a nil error, (V2) cose.NewVerifier was called with that algorithm and the caller's key and returned nil error, (V3) (*Sign1Message).Verify was called on e.message itself with that verifier and a zero-length external AAD and returned nil, (V4) e.message is non-nil; every failing call makes Verify fail. (V5) Evidence.message is written only by Sign / ValidateAndSign / UnmarshalCOSE (and private helpers reachable only from them). (V6) in UnmarshalCOSE the claims are decoded from the Payload field of the very message whose tagged UnmarshalCBOR consumed the caller's buffer. Not decided: unforgeability of the signature schemes, go-cose's Sig_structure construction, bit-level behaviour of the CBOR decoders — cryptographic and library facts outside static reach; go-cose's Verify is modelled from its source (error when payload is nil, signature empty, or algorithm absent). (V8) nothing reachable from the claims decoders writes the buffer they are given — UnmarshalCOSE hands them the envelope's own Payload slice.",
 		Rule:        "one obligation per (rule, path) of Verify and per writer site; decided by the path engine over call events",
 		Trusted:     []string{"go/types+go/ssa", "path engine", "model of go-cose v1.3.0-rc.1 Sign1Message.Verify/ProtectedHeader.Algorithm/NewVerifier", "cryptographic primitives (not analysed)"},
 		Assumptions: []string{"go-cose verifies (protected, external AAD, payload) as RFC 9052 prescribes"},
@@ -394,7 +394,7 @@ func c20Payload(w *World, r *Recorder, rule string) {
 func checkC03(w *World, r *Recorder) propInfo {
 	emptyBytesWorld = w
 	info := propInfo{
-		Explanation: "Decided part: on every path of ValidateAndSign / Sign that can return a nil error, (S1) the value stored into the message's Payload is result 0 of the package encoder applied to the Evidence's own Claims (for ValidateAndSign inside ValidateAndEncodeClaimsToCBOR, i.e. after validation — C08), its error being fatal; (S2) SetAlgorithm is applied to the *protected* header of that same message with the result of signer.Algorithm() of the caller's signer, Sign is invoked on that message with that signer and a zero-length external AAD, and the token returned is result 0 of the *tagged* (*Sign1Message).MarshalCBOR of that message; (S3) payload store and SetAlgorithm precede Sign, Sign's nil result precedes MarshalCBOR, and every failing path returns a nil token; the message is the fresh one stored into the Evidence in this call. Together with C02-V6 (decode side) this is the structural half of the round trip. Not decided: byte identity of payloads and claim-for-claim equality after decoding (run-time equalities of library encoders/decoders; see C09/C10 for their structural parts), success of verification with the matching key (cryptography).",
+		Explanation: "Decided part: on every path of ValidateAndSign / Sign that can return a nil error, (S1) the value stored into the message's Payload is result 0 of the package encoder applied to the Evidence's own Claims (for ValidateAndSign inside ValidateAndEncodeClaimsToCBOR, i.e. after validation — C08), its error being fatal; (S2) SetAlgorithm is applied to the *protected* header of that same message with the result of signer.Algorithm() of the caller's signer, Sign is invoked on that message with that signer and a zero-length external AAD, and the token returned is result 0 of the *tagged* (*Sign1Message).MarshalCBOR of that message; (S3) payload store and SetAlgorithm precede Sign, Sign's nil result precedes MarshalCBOR, and every failing path returns a nil token; the message is the fresh one stored into the Evidence in this call. Together with C02-V6 (decode side) this is the structural half of the round trip. Not decided: byte identity of payloads and claim-for-claim equality after decoding (run-time equalities of library encoders/decoders; see C09/C10 for their structural parts), success of verification with the matching key (cryptography). S9: Sign / ValidateAndSign fail only after an error of a call made on the path, the missing-claims guard, or a guard on the algorithm identifier that excludes all seven supported identifiers.",
 		Rule:        "one obligation per (rule, success path) of the two signing methods",
 		Trusted:     []string{"go/types+go/ssa", "path engine", "model of go-cose Sign1Message.Sign/MarshalCBOR/SetAlgorithm"},
 	}
@@ -790,7 +790,7 @@ func envelopeState(w *World, p Path, recv string) (state, msg string, claimsStor
 
 func checkC19(w *World, r *Recorder) propInfo {
 	info := propInfo{
-		Explanation: "Typestate of Evidence.message decided per path of Sign, ValidateAndSign and UnmarshalCOSE (private helpers inlined): states {stale (value on entry), fresh-unsigned (store of cose.NewSign1Message()), nil, signed-here (nil result of Sign on the fresh message), decoded-here (nil result of the tagged UnmarshalCBOR on it), modified-after-*}. Y1: every return with a non-nil error leaves the envelope fresh-unsigned or nil — for UnmarshalCOSE also decoded-here provided the claims are nil there; Y2: every return with a nil error leaves it signed-here resp. decoded-here, never stale; Y3: failing sign operations return a nil token; Y4: in UnmarshalCOSE the claims field is overwritten with result 0 of the claims decoder (nil on its error paths, shown on the decoder's own summary); Y5: nothing else writes the message. With the model 'Verify fails on a fresh-unsigned or nil envelope' (go-cose: empty signature ⇒ error) this yields: failed attempt ⇒ no token and verification fails until the next success; each attempt starts from a fresh envelope, so a failed attempt cannot poison a later one and two signings are independent. Not decided: histories in which the caller mutates the exported Claims field or the claims object between operations (excluded by the statement), the behaviour of signer implementations. Y13: Verify returns nil only where the one Sign1Message.Verify call on the Evidence's envelope returned nil (C02-V3 under this property).",
+		Explanation: "Typestate of Evidence.message decided per path of Sign, ValidateAndSign and UnmarshalCOSE (private helpers inlined): states {stale (value on entry), fresh-unsigned (store of cose.NewSign1Message()), nil, signed-here (nil result of Sign on the fresh message), decoded-here (nil result of the tagged UnmarshalCBOR on it), modified-after-*}. Y1: every return with a non-nil error leaves the envelope fresh-unsigned or nil — for UnmarshalCOSE also decoded-here provided the claims are nil there; Y2: every return with a nil error leaves it signed-here resp. decoded-here, never stale; Y3: failing sign operations return a nil token; Y4: in UnmarshalCOSE the claims field is overwritten with result 0 of the claims decoder (nil on its error paths, shown on the decoder's own summary); Y5: nothing else writes the message. With the model 'Verify fails on a fresh-unsigned or nil envelope' (go-cose: empty signature ⇒ error) this yields: failed attempt ⇒ no token and verification fails until the next success; each attempt starts from a fresh envelope, so a failed attempt cannot poison a later one and two signings are independent. Not decided: histories in which the caller mutates the exported Claims field or the claims object between operations (excluded by the statement), the behaviour of signer implementations. Y13: Verify returns nil only where the one Sign1Message.Verify call on the Evidence's envelope returned nil (C02-V3 under this property). Y14: the map length header of the embedding-aware serialiser follows the CBOR table for every entry count (C15-H1 under this property).",
 		Rule:        "one obligation per (method, path); decided by replaying the path's store/call events",
 		Trusted:     []string{"go/types+go/ssa", "path engine", "model: NewSign1Message has an empty signature; Sign sets it only on success; UnmarshalCBOR replaces *m only on success; Verify fails on an empty signature"},
 	}
